@@ -13,6 +13,7 @@ import z3
 
 from pymoca import ast, parser, tree
 from pymoca.backends.sympy import generator as sgen
+from vk.paths import REPO
 from vk import exprgen
 from vk.report import Collector, EncodingGap, Report, run_parallel, std_args
 from vk.smt import equiv, ops, pipeline
@@ -265,8 +266,8 @@ def main():
     ts = arith_trees(args.tier)
     items = [("exprs", ts[i:i + BATCH]) for i in range(0, len(ts), BATCH)]
     items += [("model", "classify", CLASSIFY, "M"), ("model", "names", NAMES, "M"),
-              ("model", "repo:Spring", open("/repo/test/models/Spring.mo").read(), "Spring"),
-              ("model", "repo:Aircraft", open("/repo/test/models/Aircraft.mo").read(), "Aircraft")]
+              ("model", "repo:Spring", open(REPO + "/test/models/Spring.mo").read(), "Spring"),
+              ("model", "repo:Aircraft", open(REPO + "/test/models/Aircraft.mo").read(), "Aircraft")]
     for col in run_parallel(work, items, args.jobs):
         rep.merge(col)
     cov = rep.coverage
